@@ -62,8 +62,8 @@ func splitPar(t []string) (G, iters int, subs []string, ok bool) {
 	return G, iters, subs, true
 }
 
-// diffAt describes where two result lines part: common prefix length and the two continuations
-func diffAt(got, want string) string {
+// parDiffAt describes where two result lines part: common prefix length and the two continuations
+func parDiffAt(got, want string) string {
 	i := 0
 	for i < len(got) && i < len(want) && got[i] == want[i] {
 		i++
@@ -73,10 +73,10 @@ func diffAt(got, want string) string {
 	for j > 0 && got[j-1] != ' ' && i-j < 24 {
 		j--
 	}
-	return fmt.Sprintf("from character %d on gave [%s], alone [%s]", j, clip(got[j:], 120), clip(want[j:], 120))
+	return fmt.Sprintf("from character %d on gave [%s], alone [%s]", j, parClip(got[j:], 120), parClip(want[j:], 120))
 }
 
-func clip(s string, n int) string {
+func parClip(s string, n int) string {
 	if len(s) <= n {
 		return s
 	}
@@ -146,7 +146,7 @@ func runPar(single parSingle, G, iters int, subs []string) (result, monitor stri
 		out[i] = d.got
 		if len(why) < 3 {
 			why = append(why, fmt.Sprintf("concurrent: [%s] processed next to the other %d ops (iteration %d) %s",
-				clip(subs[i], 120), n-1, d.iter, diffAt(d.got, ref[i])))
+				parClip(subs[i], 120), n-1, d.iter, parDiffAt(d.got, ref[i])))
 		}
 	}
 	if nbad > 0 {
@@ -158,7 +158,7 @@ func runPar(single parSingle, G, iters int, subs []string) (result, monitor stri
 			if !seen[i] {
 				out[i] = again
 			}
-			why = append(why, fmt.Sprintf("state: [%s] processed alone again after the concurrent phase %s", clip(s, 120), diffAt(again, ref[i])))
+			why = append(why, fmt.Sprintf("state: [%s] processed alone again after the concurrent phase %s", parClip(s, 120), parDiffAt(again, ref[i])))
 			break
 		}
 	}
